@@ -124,36 +124,34 @@ theorem overlong_leb_asymmetry :
 
 /-! ## (3) every form decodes to the value DWARF assigns to it -/
 
-/-- **`form_value_roundtrip_partial`.** For every form except `DW_FORM_sdata` (missing: the signed
-LEB128 write/read round trip, not yet proved in C09) and `DW_FORM_indirect` (see
-`indirect_roundtrip_partial`): if `bytes` is the DWARF encoding of a value with payload `p` in
-form `spec.form` under `enc` (`Spec.Attr.encodeForm`: any address size 1/2/4/8, both formats,
-both byte orders, any version incl. the address-sized `DW_FORM_ref_addr` of version 2, the
-three-byte `strx3/addrx3`, blocks and strings of any length, implicit constants), then
-decoding `bytes` followed by anything yields exactly that payload, in the value class DWARF
-assigns to the form (`rawKind`, incl. the legacy `data4/data8` section-offset classes), and
-leaves exactly what followed — i.e. reading advances by the encoded size.
-Full statement (kept for when `Leb.signed (encodeS i ++ rest) = ok (i, rest)` is available):
-the same without the hypothesis `spec.form ≠ .sdata`. -/
-theorem form_value_roundtrip_partial (enc : Encoding) (spec : Spec) (p : Payload) (bytes rest : Bytes)
-    (henc : encodeForm enc spec.form p = some bytes) (hs : spec.form ≠ .sdata)
+/-- **`form_value_roundtrip`.** For every form with a value of its own (all but
+`DW_FORM_indirect`, see `indirect_roundtrip`): if `bytes` is the DWARF encoding of a value with
+payload `p` in form `spec.form` under `enc` (`Spec.Attr.encodeForm`: any address size 1/2/4/8,
+both formats, both byte orders, any version incl. the address-sized `DW_FORM_ref_addr` of
+version 2, the three-byte `strx3/addrx3`, signed and unsigned LEB128, blocks and strings of any
+length, implicit constants), then decoding `bytes` followed by anything yields exactly that
+payload, in the value class DWARF assigns to the form (`rawKind`, incl. the legacy `data4/data8`
+section-offset classes), and leaves exactly what followed — i.e. reading advances by the
+encoded size. -/
+theorem form_value_roundtrip (enc : Encoding) (spec : Spec) (p : Payload) (bytes rest : Bytes)
+    (henc : encodeForm enc spec.form p = some bytes)
     (himp : spec.form = .implicitConst → p = .int spec.implicitConst) :
     parseAttribute enc spec (bytes ++ rest) = .ok (⟨rawKind enc spec.name spec.form, p⟩, rest) := by
   have hni : spec.form ≠ .indirect := by
     intro hi; rw [hi] at henc; simp [encodeForm] at henc
   unfold parseAttribute
   rw [parseLoop_succ_direct _ _ _ _ _ hni]
-  exact parseDirect_roundtrip enc spec spec.form p bytes rest henc hs (fun h => ⟨h, himp h⟩)
+  exact parseDirect_roundtrip enc spec spec.form p bytes rest henc (fun h => ⟨h, himp h⟩)
 
-/-- **`indirect_roundtrip_partial`.** `DW_FORM_indirect`, nested to any depth: the attribute is
-written as `k` times the code of `DW_FORM_indirect` (k ≥ 0), the ULEB128 code of the real form,
-and that form's encoding. Decoding yields the real form's value and class and consumes exactly
-those bytes — for every known real form except `DW_FORM_sdata` (same gap as above) and
-`DW_FORM_implicit_const` (which is not valid behind `DW_FORM_indirect`: the abbreviation holds no
-constant for it, see `indirect_implicit_const_asymmetry`). -/
-theorem indirect_roundtrip_partial (enc : Encoding) (spec : Spec) (hsp : spec.form = .indirect)
+/-- **`indirect_roundtrip`.** `DW_FORM_indirect`, nested to any depth: the attribute is written
+as `k` times the code of `DW_FORM_indirect` (k ≥ 0), the ULEB128 code of the real form, and that
+form's encoding. Decoding yields the real form's value and class and consumes exactly those
+bytes — for every known real form except `DW_FORM_implicit_const`, which is not valid behind
+`DW_FORM_indirect` (the abbreviation holds no constant for it, see
+`indirect_implicit_const_asymmetry`). -/
+theorem indirect_roundtrip (enc : Encoding) (spec : Spec) (hsp : spec.form = .indirect)
     (k : Nat) (form : Form) (p : Payload) (bytes rest : Bytes)
-    (henc : encodeForm enc form p = some bytes) (hs : form ≠ .sdata) (hic : form ≠ .implicitConst) :
+    (henc : encodeForm enc form p = some bytes) (hic : form ≠ .implicitConst) :
     parseAttribute enc spec (indirectPrefix k form ++ bytes ++ rest) =
       .ok (⟨rawKind enc spec.name form, p⟩, rest) := by
   have hni : form ≠ .indirect := by intro hi; rw [hi] at henc; simp [encodeForm] at henc
@@ -166,14 +164,14 @@ theorem indirect_roundtrip_partial (enc : Encoding) (spec : Spec) (hsp : spec.fo
     ⟨(indirectPrefix k form ++ (bytes ++ rest)).length + 1 - (k + 2), by
       simp only [List.length_append] at hl ⊢; omega⟩
   rw [hm, parseLoop_indirect_chain enc spec form hk hni k m (bytes ++ rest)]
-  exact parseDirect_roundtrip enc spec form p bytes rest henc hs (fun h => absurd h hic)
+  exact parseDirect_roundtrip enc spec form p bytes rest henc (fun h => absurd h hic)
 
 /-- and the encoded size is what the size table advertises, whenever it advertises one -/
 theorem encoded_size_eq_advertised (enc : Encoding) (spec : Spec) (p : Payload) (bytes : Bytes) (n : Nat)
-    (henc : encodeForm enc spec.form p = some bytes) (hs : spec.form ≠ .sdata)
+    (henc : encodeForm enc spec.form p = some bytes)
     (himp : spec.form = .implicitConst → p = .int spec.implicitConst)
     (hsz : getAttributeSize spec.form enc = some n) : bytes.length = n := by
-  have h := form_value_roundtrip_partial enc spec p bytes [] henc hs himp
+  have h := form_value_roundtrip enc spec p bytes [] henc himp
   obtain ⟨h1, h2⟩ := fixed_size_exact enc spec _ _ _ n hsz h
   simp only [List.append_nil] at h1 h2
   have : (bytes.drop n).length = 0 := by rw [← h2]; rfl
